@@ -9,6 +9,7 @@ import Verif.Lemmas.UnknownLen
 import Verif.Lemmas.UnknownCW
 import Verif.Lemmas.UnknownEnc
 import Verif.Lemmas.UnknownSpecEnc
+import Verif.Lemmas.UnknownRead
 namespace Verif.C13
 
 /-- The depth limit the source declares: 65 = the 64 container levels Binary.Skip accepts plus the innermost
@@ -89,6 +90,15 @@ theorem write_is_spec_encoding (d : Nat) (fs : List (UF d)) (h : fs.all (wt d) =
 theorem enc_is_grammar (d : Nat) (t : UInt8) (b : Bytes) (k : Nat) (h : encLen d t b = some k) :
     refLen d t b = some k := encLen_refLen d t b k h
 
+/-- Why maxRecursionDepth is 65: every sequence of ≥ 1 fields whose values thrift.Binary.Skip accepts
+    (`refBin defaultRecursionDepth`, Lemmas/Grammar — exactly Binary.Skip's acceptance set, proved in the skip
+    family; fixed-size and string leaves do not cost Skip a level, but they cost readUnknownField one) is
+    converted by ConvertUnknownFields — whatever the boolean bytes. So everything FastRead keeps as unknown
+    bytes can be converted; with canonical bools `write_convert` then gives the byte-exact round trip. -/
+theorem skip_accepted_converts (b : Bytes) (hne : b ≠ [])
+    (h : encSeq (refBin Facts.defaultRecursionDepth) (b.length + 1) b = true) : ∃ fs, convertUF b = .ok fs :=
+  convertM_of_skipAccepted Facts.defaultRecursionDepth b hne h
+
 /-! ## non-vacuity -/
 
 /-- the nested struct {1: map<i32,i64>{}, 2: i32 7} as field 1 -/
@@ -111,5 +121,16 @@ example : ¬ WTs MD [(⟨1, 12, 0, 0⟩, .fields [(⟨1, 13, 8, 10⟩, .fields [
 /-- a non-canonical boolean byte is outside the byte domain (and does not round-trip: it is written as 0) -/
 example : ¬ EncFields MD [2, 0, 1, 5] := by decide
 example : (convertUF [2, 0, 1, 5]).bind (writeUFs MD) = .ok [2, 0, 1, 0] := by decide
+
+/-- 64 nested lists around a byte leaf: accepted by Binary.Skip's discipline (`refBin 64`), not within nesting 64
+    of the plain grammar, within 65 — and converted -/
+def deepLists : Nat → Bytes
+  | 0 => [9]
+  | k+1 => (if k = 0 then 3 else 15) :: 0 :: 0 :: 0 :: 1 :: deepLists k
+
+set_option maxRecDepth 8000 in
+example : encSeq (refBin Facts.defaultRecursionDepth) (([15, 0, 5] ++ deepLists 64).length + 1)
+      ([15, 0, 5] ++ deepLists 64) = true ∧
+    refLen 64 15 (deepLists 64) = none ∧ EncFields MD ([15, 0, 5] ++ deepLists 64) := by decide
 
 end Verif.C13
